@@ -348,6 +348,8 @@ PFX_C = "corder:"     # second driver: libmptcore first in the link order (C met
 
 
 def run_part(ck, tier):
+    import time
+    t0 = time.time()
     cfg = CFG[tier]
     exe, exe_c = build(), build_c()
     docs = gen_docs(ck, cfg["ndocs"], cfg["nitems"])
@@ -467,6 +469,7 @@ def run_part(ck, tier):
     elif behs2:
         ck.cov["samples"] = list(ck.cov.get("samples") or []) + [
             {"x20_text": unrle(behs2[0][0]["arg"].get("text"), 60), "steps": [s["a"] for s in behs2[0]]}]
+    ck.notes["x20_wall_s"] = round(time.time() - t0, 1)
     ck.assumptions.append("X20: drv/layouttree.cpp projects the loaded layout without judgement; the description language is the one "
                           "LayoutTree's actions write (docs/X20_tree.md)")
 
